@@ -854,4 +854,158 @@ theorem getEvent_missing {s : St D} {b : String} {i : Int} (h : Inv s)
   rw [(keyOf_none_iff h b).mpr hv]
   rfl
 
+/-! ### getEvents … 1 and replaceLast -/
+
+theorem filter_inRange_none (l : List (ERow D)) : l.filter (inRange none none) = l :=
+  List.filter_eq_self.mpr fun _ _ => rfl
+
+/-- `get_events(limit=1)` returns one newest event of a non-empty bucket -/
+theorem getEvents_one {s : St D} {b : String} {m : Meta} {es : List (Ev D)} (h : Inv s)
+    (hv : view s b = some (m, es)) (hne : es ≠ []) :
+    ∃ t, getEvents s b 1 none none = .ok [t] ∧ Spec.IsNewest es t := by
+  obtain ⟨r, _, _, _, hk, _, rfl⟩ := view_some h hv
+  have hne' : rowsOf s r.key ≠ [] := fun h0 => hne (by rw [h0]; rfl)
+  obtain ⟨t, rest, hs, ht, hmax⟩ := head_sortDesc (key := fun r : ERow D => r.ts) hne'
+  refine ⟨toEv t, ?_, List.mem_map_of_mem ht, ?_⟩
+  · unfold getEvents
+    rw [if_neg (by decide), hk]
+    simp only [filter_inRange_none, hs]
+    rfl
+  · intro x hx
+    obtain ⟨y, hy, rfl⟩ := List.mem_map.mp hx
+    exact hmax y hy
+
+theorem replaceLast_ok {s s' : St D} {b : String} {hint : Option Int} {e : Ev D} {j : Int}
+    (hc : replaceLast s b hint e = .ok (some (s', j))) :
+    ∃ k t, keyOf s b = some k ∧ t ∈ rowsOf s k ∧ (∀ r ∈ rowsOf s k, r.ts ≤ t.ts) ∧ t.id = j ∧
+      (∀ h, hint = some h → h = j) ∧
+      s' = { s with events := s.events.map (fun row => if row.id = t.id then setRow e row else row) } := by
+  unfold replaceLast at hc
+  cases hk : keyOf s b with
+  | none => rw [hk] at hc; cases hc
+  | some k =>
+    rw [hk] at hc
+    simp only at hc
+    split at hc
+    · cases hc
+    · cases hint with
+      | some h =>
+        simp only at hc
+        cases hf : (rowsOf s k).find? (fun r => decide (r.id = h ∧ isNewest (rowsOf s k) r = true)) with
+        | none => rw [hf] at hc; cases hc
+        | some t =>
+          rw [hf] at hc
+          simp only [Except.ok.injEq, Option.some.injEq, Prod.mk.injEq] at hc
+          have hp := List.find?_some hf
+          simp only [decide_eq_true_eq, isNewest, Bool.and_eq_true, List.all_eq_true] at hp
+          refine ⟨k, t, rfl, List.mem_of_find?_eq_some hf, hp.2.2, hc.2, ?_, hc.1.symm⟩
+          intro h' hh; injection hh with hh; rw [← hh, ← hc.2, hp.1]
+      | none =>
+        simp only at hc
+        unfold defaultNewest at hc
+        cases hf : (rowsOf s k).find? (fun t => (rowsOf s k).all (fun r => decide (r.ts ≤ t.ts))) with
+        | none => rw [hf] at hc; cases hc
+        | some t =>
+          rw [hf] at hc
+          simp only [Except.ok.injEq, Option.some.injEq, Prod.mk.injEq] at hc
+          have hp := List.find?_some hf
+          simp only [decide_eq_true_eq, List.all_eq_true] at hp
+          refine ⟨k, t, rfl, List.mem_of_find?_eq_some hf, hp, hc.2, ?_, hc.1.symm⟩
+          intro h' hh; cases hh
+
+theorem replaceLast_inv {s s' : St D} {b : String} {hint : Option Int} {e : Ev D} {j : Int}
+    (h : Inv s) (hc : replaceLast s b hint e = .ok (some (s', j))) : Inv s' := by
+  obtain ⟨k, t, _, _, _, _, _, rfl⟩ := replaceLast_ok hc
+  apply inv_mapEvents h
+  intro r
+  split <;> exact ⟨rfl, rfl⟩
+
+/-- whatever hint (or none) `replaceLast` went by: the rewritten row is a newest event of the bucket,
+    it is the hinted one, and the effect is `Spec.replaceId` of its id -/
+theorem replaceLast_hint_view {s s' : St D} {b : String} {m : Meta} {es : List (Ev D)}
+    {hint : Option Int} {e : Ev D} {j : Int} (h : Inv s) (hv : view s b = some (m, es))
+    (hc : replaceLast s b hint e = .ok (some (s', j))) :
+    ∃ t, Spec.IsNewest es t ∧ t.id = some j ∧ (∀ h', hint = some h' → h' = j) ∧
+      view s' = Spec.replaceId (view s) b j e := by
+  obtain ⟨k, t, hk, ht, hmax, htj, hh, rfl⟩ := replaceLast_ok hc
+  obtain ⟨r, _, _, _, hk', _, rfl⟩ := view_some h hv
+  have hkk : r.key = k := by rw [hk] at hk'; injection hk' with hk'; exact hk'.symm
+  rw [hkk]
+  have htm := List.mem_filter.mp ht
+  refine ⟨toEv t, ⟨List.mem_map_of_mem ht, ?_⟩, by rw [← htj]; rfl, hh, ?_⟩
+  · intro x hx
+    obtain ⟨y, hy, rfl⟩ := List.mem_map.mp hx
+    exact hmax y hy
+  · rw [← htj]
+    exact view_rewrite h hk htm.1 (by simpa using htm.2) e
+
+/-- the id of every newest event of the bucket is accepted as hint -/
+theorem replaceLast_accepts {s : St D} {b : String} {m : Meta} {es : List (Ev D)} {t : Ev D}
+    {hid : Int} (h : Inv s) (hv : view s b = some (m, es)) (hn : Spec.IsNewest es t)
+    (ht : t.id = some hid) (e : Ev D) :
+    ∃ s', replaceLast s b (some hid) e = .ok (some (s', hid)) := by
+  obtain ⟨r, _, _, _, hk, _, rfl⟩ := view_some h hv
+  obtain ⟨row, hrow, rfl⟩ := List.mem_map.mp hn.1
+  have hid' : row.id = hid := by simpa [toEv] using ht
+  have hmax : ∀ x ∈ rowsOf s r.key, x.ts ≤ row.ts := fun x hx => hn.2 _ (List.mem_map_of_mem hx)
+  have hnew : isNewest (rowsOf s r.key) row = true := by
+    simp only [isNewest, Bool.and_eq_true, List.any_eq_true, List.all_eq_true, decide_eq_true_eq]
+    exact ⟨⟨row, hrow, rfl⟩, hmax⟩
+  cases hf : (rowsOf s r.key).find? (fun x => decide (x.id = hid ∧ isNewest (rowsOf s r.key) x = true)) with
+  | none =>
+    have := List.find?_eq_none.mp hf row hrow
+    simp [hid', hnew] at this
+  | some t2 =>
+    have hp := List.find?_some hf
+    simp only [decide_eq_true_eq] at hp
+    unfold replaceLast
+    rw [hk]
+    have : (rowsOf s r.key).isEmpty = false := by
+      cases hl : rowsOf s r.key with
+      | nil => rw [hl] at hrow; cases hrow
+      | cons a l => rfl
+    simp only [this, hf, hp.1]
+    exact ⟨_, rfl⟩
+
+/-- `replace_last` on a non-empty bucket: `get_events(limit=1)` yields a newest event `t`; its id is
+    an accepted hint, so is the id of every other newest event, and for every accepted hint the
+    effect is `Spec.replaceId` at the id of a newest event -/
+theorem replaceLast_view {s : St D} {b : String} {m : Meta} {es : List (Ev D)} (h : Inv s)
+    (hv : view s b = some (m, es)) (hne : es ≠ []) :
+    (∃ t hid, getEvents s b 1 none none = .ok [t] ∧ Spec.IsNewest es t ∧ t.id = some hid ∧
+      ∀ e, ∃ s', replaceLast s b (some hid) e = .ok (some (s', hid)) ∧
+        view s' = Spec.replaceId (view s) b (t.id.getD 0) e) ∧
+    (∀ t hid, Spec.IsNewest es t → t.id = some hid →
+      ∀ e, ∃ s', replaceLast s b (some hid) e = .ok (some (s', hid))) ∧
+    (∀ hint e s' j, replaceLast s b hint e = .ok (some (s', j)) →
+      ∃ t, Spec.IsNewest es t ∧ t.id = some j ∧ (∀ h', hint = some h' → h' = j) ∧
+        view s' = Spec.replaceId (view s) b (t.id.getD 0) e) := by
+  refine ⟨?_, fun t hid hn ht e => replaceLast_accepts h hv hn ht e, ?_⟩
+  · obtain ⟨t, hg, hn⟩ := getEvents_one h hv hne
+    obtain ⟨hid, ht⟩ := Option.isSome_iff_exists.mp ((ids_nodup h hv).2 t hn.1)
+    refine ⟨t, hid, hg, hn, ht, fun e => ?_⟩
+    obtain ⟨s', hs'⟩ := replaceLast_accepts h hv hn ht e
+    obtain ⟨_, _, _, _, hview⟩ := replaceLast_hint_view h hv hs'
+    exact ⟨s', hs', by rw [ht]; exact hview⟩
+  · intro hint e s' j hc
+    obtain ⟨t, hn, ht, hh, hview⟩ := replaceLast_hint_view h hv hc
+    exact ⟨t, hn, ht, hh, by rw [ht]; exact hview⟩
+
+theorem replaceLast_missing {s : St D} {b : String} {hint : Option Int} {e : Ev D} (h : Inv s)
+    (hv : view s b = none) : replaceLast s b hint e = .error .keyError := by
+  unfold replaceLast
+  rw [(keyOf_none_iff h b).mpr hv]
+
+/-- `_get_last` on an empty bucket raises DoesNotExist -/
+theorem replaceLast_empty {s : St D} {b : String} {m : Meta} {hint : Option Int} {e : Ev D} (h : Inv s)
+    (hv : view s b = some (m, [])) : replaceLast s b hint e = .error .doesNotExist := by
+  obtain ⟨r, _, _, _, hk, _, hes⟩ := view_some h hv
+  unfold replaceLast
+  rw [hk]
+  have : rowsOf s r.key = [] := by
+    cases hl : rowsOf s r.key with
+    | nil => rfl
+    | cons a l => rw [hl] at hes; cases hes
+  simp only [this, List.isEmpty_nil, if_true]
+
 end Aw.Store.Peewee
